@@ -19,7 +19,7 @@ RULE = (
 )
 ASSUMPTIONS = ["covering bands: rectangles 1e-6 rel (LP certificates), ellipsoids 2e-6+1e-4*mag (minimax certificates)",
                "Auer: a round is judged only if every first-stage membership is decisive"]
-N = {"quick": 190, "thorough": 6000}
+N = {"quick": 190, "thorough": 3500}
 VARS = ["PaVeBa", "PaVeBaGP-IH", "PaVeBaGP-DE", "PartialGP-rect", "PartialGP-ell", "VOGP", "EpsilonPAL", "Auer", "Auer-emp", "Auer-emp", "VOGP"]
 REQUIRE = {"quick": {"must_admit": 300, "must_hold": 1500, "must_useful": 50, "must_not_useful": 50, "auer_held_back": 5, "many_design_runs": 6, "auer_blocked_only_by_per_objective_sum": 10, "runs": 150, "vogp_ad_runs": 10,
                      **{f"must_admit::{v}": 8 for v in set(VARS)}, **{f"must_hold::{v}": 20 for v in set(VARS)}}}
@@ -112,7 +112,7 @@ def shard(mon, tier, rng, shard_no, nshards):
             directed_many_designs(mon, rng)
     for _ in range(1 if tier == "quick" else 6):
         ad_run(mon, rng)
-    for _ in range(4 if tier == "quick" else 40):
+    for _ in range(4 if tier == "quick" else 20):
         directed_auer_emp(mon, rng)
     if shard_no == 0:
         directed_d9(mon)
